@@ -1,0 +1,40 @@
+// Package stream holds helpers for the io.Reader based entry points.
+package stream
+
+import "io"
+
+// maxConsecutiveEmptyReads is the number of consecutive Read calls that may
+// deliver nothing without reporting an error (same limit as bufio).
+const maxConsecutiveEmptyReads = 100
+
+// Progress returns a reader that never answers a Read with (0, nil).
+//
+// An io.Reader is allowed to return a zero byte count with a nil error, which
+// means "nothing happened, call again" and is neither an end of the stream nor
+// a failure. The streaming decoders of the IPLD codecs don't expect it: they
+// take the untouched buffer for a byte that was read. Such a Read is retried
+// here instead, and io.ErrNoProgress is returned if the underlying reader
+// keeps doing it.
+func Progress(r io.Reader) io.Reader {
+	if _, ok := r.(*progressReader); ok {
+		return r
+	}
+	return &progressReader{r: r}
+}
+
+type progressReader struct {
+	r io.Reader
+}
+
+func (p *progressReader) Read(b []byte) (int, error) {
+	if len(b) == 0 {
+		return p.r.Read(b)
+	}
+	for i := 0; i < maxConsecutiveEmptyReads; i++ {
+		n, err := p.r.Read(b)
+		if n > 0 || err != nil {
+			return n, err
+		}
+	}
+	return 0, io.ErrNoProgress
+}
